@@ -1,0 +1,145 @@
+//! Read-only observer of the code built for each object (verification hook).
+//!
+//! Compiled only with the cargo feature `yuja_qmluic_verif`.  Nothing here mutates
+//! the translation state: the observer is handed shared references to the finished
+//! `CodeBody` of every property binding, attached binding, gadget/object member and
+//! signal callback, together with the cached "evaluated to a constant" flag as it is
+//! at that moment.
+
+use super::objcode::{ObjectCodeMap, PropertyCode, PropertyCodeKind};
+use crate::objtree::ObjectTree;
+use crate::tir::CodeBody;
+use crate::typemap::TypeSpace as _;
+use std::cell::RefCell;
+use std::collections::HashMap;
+
+/// One observed code body.
+pub struct CodeEvent<'c, 'a> {
+    /// `"built"` (right after the code maps were built) or `"final"` (after the form
+    /// and the support code were generated.)
+    pub phase: &'static str,
+    pub object_name: &'c str,
+    pub object_class: String,
+    /// `"property"`, `"attached"` or `"callback"`.
+    pub kind: &'static str,
+    /// Attaching class name if `kind == "attached"`.
+    pub attached_class: Option<String>,
+    /// Dotted property path (`font.bold`), or the signal name for callbacks.
+    pub path: String,
+    /// C++ name of the property type, or empty for callbacks.
+    pub value_type: String,
+    pub code: &'c CodeBody<'a>,
+    pub evaluated_constant: bool,
+}
+
+type Observer = Box<dyn FnMut(&CodeEvent<'_, '_>)>;
+
+thread_local! {
+    static OBSERVER: RefCell<Option<Observer>> = const { RefCell::new(None) };
+}
+
+/// Installs the observer for the current thread.
+pub fn set_observer(f: Observer) {
+    OBSERVER.with(|o| *o.borrow_mut() = Some(f));
+}
+
+/// Removes the observer of the current thread.
+pub fn clear_observer() {
+    OBSERVER.with(|o| *o.borrow_mut() = None);
+}
+
+pub(super) fn observe(
+    phase: &'static str,
+    object_tree: &ObjectTree,
+    object_code_maps: &[ObjectCodeMap],
+) {
+    OBSERVER.with(|o| {
+        let mut o = o.borrow_mut();
+        let Some(f) = o.as_mut() else {
+            return;
+        };
+        for (obj_node, code_map) in object_tree.flat_iter().zip(object_code_maps) {
+            let object_name = obj_node.name();
+            let object_class = obj_node.class().qualified_cxx_name().into_owned();
+            visit_map(
+                f,
+                phase,
+                object_name,
+                &object_class,
+                "property",
+                None,
+                "",
+                code_map.properties(),
+            );
+            for c in code_map.callbacks() {
+                f(&CodeEvent {
+                    phase,
+                    object_name,
+                    object_class: object_class.clone(),
+                    kind: "callback",
+                    attached_class: None,
+                    path: c.desc().name().to_owned(),
+                    value_type: String::new(),
+                    code: c.code(),
+                    evaluated_constant: false,
+                });
+            }
+            for (cls, (_, map)) in code_map.all_attached_properties() {
+                let acls = cls.qualified_cxx_name().into_owned();
+                visit_map(
+                    f,
+                    phase,
+                    object_name,
+                    &object_class,
+                    "attached",
+                    Some(&acls),
+                    "",
+                    map,
+                );
+            }
+        }
+    });
+}
+
+#[allow(clippy::too_many_arguments)]
+fn visit_map(
+    f: &mut Observer,
+    phase: &'static str,
+    object_name: &str,
+    object_class: &str,
+    kind: &'static str,
+    attached_class: Option<&str>,
+    prefix: &str,
+    map: &HashMap<&str, PropertyCode>,
+) {
+    for (name, p) in map {
+        let path = if prefix.is_empty() {
+            (*name).to_owned()
+        } else {
+            format!("{prefix}.{name}")
+        };
+        match p.kind() {
+            PropertyCodeKind::Expr(ty, code) => f(&CodeEvent {
+                phase,
+                object_name,
+                object_class: object_class.to_owned(),
+                kind,
+                attached_class: attached_class.map(|s| s.to_owned()),
+                path,
+                value_type: ty.qualified_cxx_name().into_owned(),
+                code,
+                evaluated_constant: p.is_evaluated_constant(),
+            }),
+            PropertyCodeKind::GadgetMap(_, m) | PropertyCodeKind::ObjectMap(_, m) => visit_map(
+                f,
+                phase,
+                object_name,
+                object_class,
+                kind,
+                attached_class,
+                &path,
+                m,
+            ),
+        }
+    }
+}
